@@ -6,7 +6,7 @@ func init() {
 		{ID: "c15-decline-after-consume", File: "internal/wire/pack.go", Expect: "C15-R1",
 			Old: "\treturn true, consume(state.buf[:off:off])", New: "\tif err := consume(state.buf[:off:off]); err != nil {\n\t\treturn false, nil\n\t}\n\treturn true, nil", Why: "a consumer error makes the caller fall back and write a second response"},
 		{ID: "c15-size-probe-doubled", File: "internal/wire/pack.go", Expect: "C15-R1",
-			Old: "if sizeProbe.Len() > packBufferSize {", New: "if sizeProbe.Len() > 2*packBufferSize {", Why: "messages larger than the pooled buffer are admitted"},
+			Old: "\tif size > packBufferSize {\n\t\treturn false, nil\n\t}", New: "\tif size > 2*packBufferSize {\n\t\treturn false, nil\n\t}", Why: "messages larger than the pooled buffer are admitted"},
 		{ID: "c15-inadmissible-skipped", File: "internal/wire/pack.go", Expect: "C15-R1",
 			Old: "\t\t\tif !admissibleRR(rr) {\n\t\t\t\treturn false, nil\n\t\t\t}", New: "\t\t\tif !admissibleRR(rr) {\n\t\t\t\tcontinue\n\t\t\t}", Why: "foreign / nil records reach the packer"},
 		{ID: "c15-release-dropped", File: "internal/wire/pack.go", Expect: "C15-R1",
